@@ -183,7 +183,7 @@ func groupSignRoot(bn *fakebn.BN, key tbls.PrivateKey, domain string, epoch eth2
 // ---- builders: each returns a valid submission for validator v made by node `me`
 
 func buildAttestation(t *testing.T, cl *cluster, v *validator, me int, seed int64) *submission {
-	cv := valgen.Signed(t, valgen.Kinds[7], seed).(core.VersionedAttestation)
+	cv := valgen.Signed(t, valgen.KindByName("VersionedAttestation"), seed).(core.VersionedAttestation)
 	api := cv.VersionedAttestation
 	s := &submission{endpoint: "SubmitAttestations", duty: core.DutyAttester, api: &api}
 	data, err := api.Data()
@@ -281,7 +281,7 @@ func buildRandao(t *testing.T, cl *cluster, v *validator, me int, seed int64) *s
 	slot := uint64(opts.Slot)
 	s.install = func(w *wiring) {
 		w.proposerBySlot[slot] = v.corePub
-		p := valgen.Unsigned(t, valgen.Kinds[2], 5).(core.VersionedProposal)
+		p := valgen.Unsigned(t, valgen.KindByName("VersionedProposal"), 5).(core.VersionedProposal)
 		w.proposal[slot] = &p.VersionedProposal
 	}
 	s.call = func(c *validatorapi.Component) error {
@@ -348,9 +348,9 @@ func proposalSig(p *eth2api.VersionedSignedProposal) *eth2p0.BLSSignature {
 
 // buildProposal covers SubmitProposal (blinded=false) and SubmitBlindedProposal (blinded=true).
 func buildProposal(t *testing.T, cl *cluster, v *validator, me int, seed int64, blinded bool) *submission {
-	kind := valgen.Kinds[5]
+	kind := valgen.KindByName("VersionedSignedProposal")
 	if blinded {
-		kind = valgen.Kinds[6]
+		kind = valgen.KindByName("VersionedSignedProposal(blinded)")
 	}
 	var api, twin eth2api.VersionedSignedProposal
 	for k := int64(0); ; k++ { // pre-merge versions are outside the signing flow
@@ -485,7 +485,7 @@ func buildSyncMessage(_ *testing.T, cl *cluster, v *validator, me int, seed int6
 }
 
 func buildContribution(t *testing.T, cl *cluster, v *validator, me int, seed int64) *submission {
-	cv := valgen.Signed(t, valgen.Kinds[17], seed).(core.SignedSyncContributionAndProof)
+	cv := valgen.Signed(t, valgen.KindByName("SignedSyncContributionAndProof"), seed).(core.SignedSyncContributionAndProof)
 	api := &cv.SignedContributionAndProof
 	api.Message.AggregatorIndex = v.index
 	c := api.Message.Contribution
@@ -520,7 +520,7 @@ func mustRoot(h htr) eth2p0.Root {
 }
 
 func buildAggregate(t *testing.T, cl *cluster, v *validator, me int, seed int64) *submission {
-	cv := valgen.Signed(t, valgen.Kinds[14], seed).(core.VersionedSignedAggregateAndProof)
+	cv := valgen.Signed(t, valgen.KindByName("VersionedSignedAggregateAndProof"), seed).(core.VersionedSignedAggregateAndProof)
 	api := &cv.VersionedSignedAggregateAndProof
 	var sig *eth2p0.BLSSignature
 	setInner := func() {
